@@ -53,3 +53,17 @@ From RS Require Import PipelineOptStmts PipelineOptFacts.
 Theorem end_to_end_with_modelled_optimiser : stmt_end_to_end_opt.
 Proof. exact end_to_end_opt. Qed.
 Print Assumptions end_to_end_with_modelled_optimiser.
+
+(** "with the input's own … times": the answer prints a node's time with as_iso; reading the printed string gives the same
+    point again, and every strict time the input lists reads, prints and reads as the same point (Cal.v = rapid_time's
+    DateTime::new / as_iso, compared with rapid_time itself on every run: family time) *)
+From RS Require Import Cal CalStmts CalFacts.
+Theorem C03_printed_times_read_back : stmt_iso_roundtrip.
+Proof. exact iso_roundtrip. Qed.
+Print Assumptions C03_printed_times_read_back.
+Theorem C03_input_times_survive_print_and_read : stmt_parse_iso_parse.
+Proof. exact parse_iso_parse. Qed.
+Print Assumptions C03_input_times_survive_print_and_read.
+Theorem C03_printing_never_runs_out_of_calendar : stmt_days_to_ymd_total.
+Proof. exact days_to_ymd_total. Qed.
+Print Assumptions C03_printing_never_runs_out_of_calendar.
